@@ -2,7 +2,8 @@
 
 Sub-checks
   read     object graphs (shared nodes, back-edges / cycles, strings, sets, tuples, attribute objects,
-           containers whose element access or iteration raises) x paths with 1-3 wildcards at every
+           containers whose element access or iteration raises, list / tuple / namedtuple subclasses whose
+           instances have a __dict__, mappings that re-order themselves when read) x paths with 1-3 wildcards at every
            position, spelled as dotted string, Path(..., T.__star__(), ...) and pure T, followed by
            ordinary segments that exist only under some entries
   mutate   Assign / Delete through 1-3 wildcards on recording containers
@@ -12,6 +13,8 @@ Termination is decided without a clock: every container of the generated graph i
 subclass sharing one access log with a budget; exceeding it raises a BaseException.
 """
 import os
+import collections
+from reprlib import recursive_repr
 
 from hypothesis import strategies as st
 
@@ -25,13 +28,19 @@ from .. import targets as tg
 
 PROPERTY = 'C14'
 RULE = ('graphs: recipes over recording dict/list/object containers, tuples, sets, strings and atoms with shared '
-        'nodes and back-edges (cycles to the root or an inner node), plus containers whose item access / iteration raises; '
+        'nodes and back-edges (cycles to the root or an inner node), plus containers whose item access / iteration raises, '
+        'list / tuple / namedtuple subclasses whose instances have a __dict__ (with and without instance attributes) and '
+        'OrderedDict subclasses that move a key to the end when it is read (the LRU recipe); '
         'paths: 1-4 segments with 1-3 wildcards (* and **, at most one **-after-** to bound output size) in string, Path and T '
         'spelling. Non-trivial = graph with a shared or cyclic node, or >= 2 wildcards, or a miss after a wildcard.')
 ASSUMPTIONS = [
     'children(v): mapping values | attribute values of objects with __dict__ | items of iterables other than str/bytes, in the object\'s own order',
     'entries are compared by identity (atoms by equality)',
-    'objects that are both attribute-bearing and iterable are not generated (the statement does not order the two readings)',
+    'a list / tuple (sub)class instance is a sequence: its children are its items, whatever instance attributes it carries '
+    '(the statement names "sequence items" for sequences; glom indexes such values everywhere else). Other objects that are both '
+    'attribute-bearing and iterable are not generated (the statement does not order the two readings)',
+    'a mapping that re-orders itself when read has one child per key, in the order of the keys when the step starts; the reference keeps '
+    'its own model of the key order (reads in path order, entry by entry) and never reads through the mapping\'s own __getitem__',
     'S-rooted wildcards are outside the statement (targets only)',
 ]
 BUDGET = 40000
@@ -59,8 +68,59 @@ class ErrIter(object):
         return '<ErrIter>'
 
 
+class SubList(tg.RecList):
+    """an ordinary list subclass: no __slots__, so its instances have a __dict__ (class L(list): pass); the access
+    log lives in the slots inherited from RecList, the instance __dict__ holds only the generated attributes"""
+
+
+class SubTuple(tuple):
+    """an ordinary tuple subclass whose instances have a __dict__"""
+
+
+class Pt(collections.namedtuple('Pt', 'x y')):
+    """the usual "namedtuple + methods" idiom: a namedtuple subclass without __slots__"""
+
+    def norm(self):
+        return 0
+
+
+SEQSUB = (SubList, SubTuple, Pt)
+
+
+class LRU(tg.OrderedDict):
+    """the LRU recipe of the `collections` documentation: reading an item moves its key to the end"""
+    __slots__ = ('_log', '_nid')
+
+    def _logit(self, *entry):
+        log = getattr(self, '_log', None)
+        if log is not None:
+            log.append((getattr(self, '_nid', None),) + entry)
+
+    def __getitem__(self, k):
+        self._logit('getitem', k)
+        v = tg.OrderedDict.__getitem__(self, k)
+        self.move_to_end(k)
+        return v
+
+    def __setitem__(self, k, v):
+        self._logit('setitem', k)
+        return tg.OrderedDict.__setitem__(self, k, v)
+
+    def __delitem__(self, k):
+        self._logit('delitem', k)
+        return tg.OrderedDict.__delitem__(self, k)
+
+    @recursive_repr()
+    def __repr__(self):
+        # (OrderedDict.__repr__ reads the items through __getitem__: it would re-order the mapping)
+        return 'LRU(%s)' % ', '.join('%s=%r' % (k, dict.__getitem__(self, k)) for k in tg.OrderedDict.__iter__(self))
+
+    __hash__ = None
+
+
 def build_graph(r):
-    """tg recipe extended with ["edict", entries] and ["eiter"]"""
+    """tg recipe extended with ["edict", entries], ["eiter"], ["lru", entries] and the sequence subclasses
+    ["lsub", items, attrs], ["tsub", items, attrs], ["ntsub", [x, y], attrs] (attrs: [[name, R], ...] instance attributes)"""
     b = tg.Built()
     b.obj = _build(r, b)
     b.log.budget = BUDGET
@@ -79,6 +139,30 @@ def _build(r, b):
         return c
     if tag == 'eiter':
         return ErrIter()
+    if tag == 'lru':
+        c = LRU()
+        nid = len(b.nodes)
+        b.nodes.append(c)
+        for k, v in r[1]:
+            tg.OrderedDict.__setitem__(c, k, _build(v, b))
+        c._log, c._nid = b.log, nid
+        return c
+    if tag == 'lsub':
+        c = SubList()
+        nid = len(b.nodes)
+        b.nodes.append(c)
+        for v in r[1]:
+            list.append(c, _build(v, b))
+        for k, v in r[2]:
+            c.__dict__[k] = _build(v, b)
+        c._log, c._nid = b.log, nid
+        return c
+    if tag in ('tsub', 'ntsub'):
+        items = [_build(v, b) for v in r[1]]
+        c = SubTuple(items) if tag == 'tsub' else Pt(*items)
+        for k, v in r[2]:
+            c.__dict__[k] = _build(v, b)
+        return c
     if tag in ('rdict', 'dict', 'odict'):
         c = tg.RecDict()
         nid = len(b.nodes)
@@ -122,8 +206,19 @@ def _build(r, b):
 KEYS = ['a', 'b', 'k', 'z']
 
 
-def gen_graph(draw, depth=4):
+ATTRS = ['a', 'p']          # instance attributes of the sequence subclasses ('a' is also a path segment)
+
+
+def gen_graph(draw, depth=4, ext=False):
+    """ext=True adds the classes LRU / SubList / SubTuple / Pt as nodes anywhere in the graph (every draw they need is made
+    only then: the stream of the callers in other modules, which use the default, is unchanged)"""
     count = [0]
+
+    def attrs(d):
+        if draw(st.booleans()):
+            return []
+        ks = draw(st.lists(st.sampled_from(ATTRS), min_size=1, max_size=2, unique=True))
+        return [[k, node(d - 1)] for k in ks]
 
     def atom():
         return draw(st.sampled_from([['i', 1], ['i', 2], ['s', 'xy'], ['none'], ['f', 3.5], ['tuple', []],
@@ -135,6 +230,18 @@ def gen_graph(draw, depth=4):
             return ['ref', draw(st.integers(0, count[0] - 1))]
         if d <= 0 or r < 32:
             return atom()
+        if ext and r < 60 and draw(st.sampled_from(range(4))) == 0:
+            count[0] += 1
+            ks = draw(st.lists(st.sampled_from(KEYS), min_size=2, max_size=4, unique=True))
+            return ['lru', [[k, node(d - 1)] for k in ks]]
+        if ext and 60 <= r < 80 and draw(st.sampled_from(range(3))) == 0:
+            count[0] += 1
+            items = [node(d - 1) for _ in range(draw(st.sampled_from([0, 1, 2, 2, 3])))]
+            return ['lsub', items, attrs(d)]
+        if ext and r >= 90 and draw(st.sampled_from(range(3))) > 0:
+            if draw(st.booleans()):
+                return ['ntsub', [node(d - 1), node(d - 1)], attrs(d)]
+            return ['tsub', [node(d - 1) for _ in range(draw(st.integers(0, 2)))], attrs(d)]
         if r < 60:
             count[0] += 1
             tag = 'edict' if draw(st.integers(0, 7)) == 0 else 'rdict'
@@ -151,14 +258,14 @@ def gen_graph(draw, depth=4):
         return ['tuple', [node(d - 1) for _ in range(draw(st.integers(0, 2)))]]
 
     g = node(depth)
-    if g[0] not in ('rdict', 'rlist', 'robj', 'edict'):
+    if g[0] not in ('rdict', 'rlist', 'robj', 'edict', 'lru', 'lsub'):
         count[0] += 1
         g = ['rdict', [['a', g], ['k', node(depth - 1)]]]
     return g
 
 
-def gen_read(draw):
-    g = gen_graph(draw)
+def gen_read(draw, ext=False):
+    g = gen_graph(draw, ext=ext)
     n = draw(st.integers(1, 4))
     segs = [draw(st.sampled_from(['*', '*', '**', 'a', 'k', '0', 'z', 'b'])) for _ in range(n)]
     if not any(s in ('*', '**') for s in segs):
@@ -171,13 +278,47 @@ def gen_read(draw):
     return {'graph': g, 'segs': segs}
 
 
+def gen_read_ext(draw):
+    return gen_read(draw, ext=True)
+
+
 # ---------------------------------------------------------------------------
 # reference
 
 ACCESS_ERRORS = (KeyError, IndexError, AttributeError, TypeError, ValueError)
 
 
-def children(v):
+class Model(object):
+    """state of one reference walk: the key order of every self-re-ordering mapping (taken from the object, without reading
+    through it, the first time the walk touches it; from then on maintained by the walk's own reads) and the containers of
+    the generated special classes that a wildcard enumerated"""
+
+    def __init__(self):
+        self.order = {}
+        self.enumerated = []
+
+    def keys(self, v):
+        o = self.order.get(id(v))
+        if o is None:
+            o = self.order[id(v)] = list(tg.OrderedDict.__iter__(v))
+        return o
+
+    def read(self, v, k):
+        """value of v[k]; a successful read moves k to the end (a failing one raises before that)"""
+        val = dict.__getitem__(v, k)
+        o = self.keys(v)
+        o.remove(k)
+        o.append(k)
+        return val
+
+
+def children(v, m=None):
+    if m is None:
+        m = Model()
+    if isinstance(v, LRU):
+        m.enumerated.append(v)
+        # one child per key, keys as they are ordered when the step starts
+        return [m.read(v, k) for k in list(m.keys(v))]
     if isinstance(v, dict):
         out = []
         for k in dict.keys(v):
@@ -187,6 +328,8 @@ def children(v):
         return out
     if isinstance(v, (str, bytes)):
         return []
+    if isinstance(v, SEQSUB):
+        m.enumerated.append(v)      # (a sequence: falls through to the list / tuple rule)
     if isinstance(v, list):
         return list(list.__iter__(v))
     if isinstance(v, (tuple, set, frozenset)):
@@ -199,7 +342,9 @@ def children(v):
     return []
 
 
-def get(v, seg):
+def get(v, seg, m=None):
+    if isinstance(v, LRU):
+        return (m or Model()).read(v, seg)
     if isinstance(v, dict):
         if isinstance(v, ErrDict) and isinstance(seg, str) and seg.startswith('bad'):
             raise KeyError(seg)
@@ -216,8 +361,10 @@ def get(v, seg):
     return getattr(v, seg)
 
 
-def descendants(v):
-    items = list(children(v))
+def descendants(v, m=None):
+    if m is None:
+        m = Model()
+    items = list(children(v, m))
     seen = {id(v)}                      # the start value counts as visited
     i = 0
     while i < len(items):
@@ -225,25 +372,55 @@ def descendants(v):
         i += 1
         if id(it) not in seen:
             seen.add(id(it))
-            items.extend(children(it))
+            items.extend(children(it, m))
         if len(items) > 200000:
             raise MemoryError('reference blow-up')
     return [v] + items
 
 
-def refstar(v, segs):
+def refstar(v, segs, m=None):
+    if m is None:
+        m = Model()
     if not segs:
         return v
     s, rest = segs[0], segs[1:]
     if s in ('*', '**'):
         out = []
-        for c in (children(v) if s == '*' else descendants(v)):
+        for c in (children(v, m) if s == '*' else descendants(v, m)):
             try:
-                out.append(refstar(c, rest))
+                out.append(refstar(c, rest, m))
             except ACCESS_ERRORS:
                 pass
         return out
-    return refstar(get(v, s), rest)
+    return refstar(get(v, s, m), rest, m)
+
+
+def enum_labels(m):
+    """which of the generated special classes did a wildcard enumerate (with enough children for a loss to show)"""
+    out = set()
+    for v in m.enumerated:
+        if isinstance(v, LRU):
+            if len(v) >= 2:
+                out.add('enum-lru')
+        elif len(v) >= 1:
+            out.add('enum-seqsub-attrs' if v.__dict__ else 'enum-seqsub-bare')
+            if isinstance(v, Pt):
+                out.add('enum-namedtuple-sub')
+    return sorted(out)
+
+
+def blame(m):
+    """diagnosis only (it names the bucket of a mismatch that was already established): the first special-class container
+    of the walk whose own '*' enumeration differs from children()"""
+    for v in m.enumerated:
+        exp = children(v)
+        try:
+            got = glom.glom(v, '*')
+        except Exception:
+            return '-lru' if isinstance(v, LRU) else '-seqsub'
+        if not same_nested(got, exp, 1):
+            return '-lru' if isinstance(v, LRU) else '-seqsub'
+    return ''
 
 
 def same_nested(a, b, levels):
@@ -284,15 +461,25 @@ def has_sharing(g):
     return "'ref'" in repr(g)
 
 
+def has_lru(g):
+    return "'lru'" in repr(g)
+
+
+def expect(g, segs):
+    m = Model()
+    try:
+        return ('ok', refstar(g, segs, m)), m
+    except ACCESS_ERRORS as e:
+        return ('err', e), m
+
+
 def check_read(recipe, ctx):
     segs = recipe['segs']
     b = build_graph(recipe['graph'])
     g = b.obj
     nwild = sum(1 for s in segs if s in ('*', '**'))
     try:
-        exp = ('ok', refstar(g, segs))
-    except ACCESS_ERRORS as e:
-        exp = ('err', e)
+        exp, m = expect(g, segs)
     except (MemoryError, RecursionError):
         ctx.label('reference-too-big')
         return
@@ -301,6 +488,7 @@ def check_read(recipe, ctx):
         return
     snap = tg.snapshot(g)
     ctx.label('exp-' + exp[0], 'wild-%d' % nwild)
+    ctx.label(*enum_labels(m))
     if has_sharing(recipe['graph']):
         ctx.label('shared-or-cyclic')
     if '**' in segs:
@@ -308,7 +496,12 @@ def check_read(recipe, ctx):
     first = min(i for i, s in enumerate(segs) if s in ('*', '**'))
     miss_after = exp[0] == 'ok' and len(segs) > first + 1
     ctx.nontrivial(has_sharing(recipe['graph']) or nwild >= 2 or miss_after)
-    for name, spec in make_specs(segs):
+    reordering = has_lru(recipe['graph'])
+    for n, (name, spec) in enumerate(make_specs(segs)):
+        if n and reordering:
+            # the evaluation before this one may have left a self-re-ordering mapping in another order:
+            # the expectation is taken from the graph as this evaluation finds it
+            exp, m = expect(g, segs)
         where = 'spelling=%s path=%r graph=%r' % (name, segs, g)
         b.log.reset()
         try:
@@ -333,7 +526,7 @@ def check_read(recipe, ctx):
         if got[0] == 'err':
             raise Mismatch('spurious-error', '%s: expected %r, glom raised %r' % (where, exp[1], got[1]))
         if not same_nested(got[1], exp[1], nwild):
-            raise Mismatch('wrong-entries', '%s: expected %r, got %r' % (where, exp[1], got[1]))
+            raise Mismatch('wrong-entries' + blame(m), '%s: expected %r, got %r' % (where, exp[1], got[1]))
         d = tg.snapshot_diff(snap, tg.snapshot(g))
         if d:
             raise Mismatch('target-mutated', '%s: %s' % (where, d))
@@ -343,23 +536,31 @@ def check_read(recipe, ctx):
 # ---------------------------------------------------------------------------
 # Assign / Delete through wildcards
 
-def gen_tree(draw, d, leaf='map'):
-    """acyclic tree of recording containers whose leaves (depth d) are dicts / objects (or plain lists of numbers)"""
+def gen_tree(draw, d, leaf='map', ext=False):
+    """acyclic tree of recording containers whose leaves (depth d) are dicts / objects (or plain lists of numbers);
+    ext=True: inner containers are also list subclasses with an instance __dict__ and self-re-ordering mappings"""
     if d <= 0 and leaf == 'list':
         return ['plist', [['i', draw(st.integers(0, 9))] for _ in range(draw(st.integers(0, 3)))]]
     if d <= 0:
         tag = draw(st.sampled_from(['rdict', 'rdict', 'robj']))
         ks = draw(st.lists(st.sampled_from(['x', 'y']), max_size=2, unique=True))
         return [tag, [[k, ['i', draw(st.integers(0, 9))]] for k in ks]]
-    tag = draw(st.sampled_from(['rdict', 'rlist', 'rlist', 'robj']))
+    tag = draw(st.sampled_from(['rdict', 'rlist', 'rlist', 'robj'] + (['lsub', 'lru'] if ext else [])))
     n = draw(st.integers(0, 3))
     if tag == 'rlist':
-        return ['rlist', [gen_tree(draw, d - 1, leaf) for _ in range(n)]]
+        return ['rlist', [gen_tree(draw, d - 1, leaf, ext) for _ in range(n)]]
+    if tag == 'lsub':
+        return ['lsub', [gen_tree(draw, d - 1, leaf, ext) for _ in range(n)],
+                [['p', ['i', 7]]] if draw(st.booleans()) else []]
     ks = draw(st.lists(st.sampled_from(['a', 'b', 'k']), min_size=n, max_size=n, unique=True))
-    return [tag, [[k, gen_tree(draw, d - 1, leaf)] for k in ks]]
+    return [tag, [[k, gen_tree(draw, d - 1, leaf, ext)] for k in ks]]
 
 
-def gen_mutate(draw):
+def gen_mutate_ext(draw):
+    return gen_mutate(draw, ext=True)
+
+
+def gen_mutate(draw, ext=False):
     nw = draw(st.integers(1, 3))
     extra = draw(st.integers(0, 1))          # ordinary segments between wildcards
     segs = []
@@ -374,10 +575,10 @@ def gen_mutate(draw):
         segs[0] = '**'
     if draw(st.sampled_from(range(4))) == 0:
         # the matched entries are themselves plain LISTS and the final segment is an index into them
-        return {'tree': gen_tree(draw, depth, 'list'), 'segs': segs, 'final': draw(st.sampled_from(['0', '0', '1', '2'])),
+        return {'tree': gen_tree(draw, depth, 'list', ext), 'segs': segs, 'final': draw(st.sampled_from(['0', '0', '1', '2'])),
                 'op': draw(st.sampled_from(['assign', 'assign', 'delete'])), 'ignore_missing': draw(st.booleans()),
                 'api': draw(st.sampled_from(['func', 'spec'])), 'leaf': 'list'}
-    return {'tree': gen_tree(draw, depth), 'segs': segs, 'final': draw(st.sampled_from(['x', 'y', 'new'])),
+    return {'tree': gen_tree(draw, depth, ext=ext), 'segs': segs, 'final': draw(st.sampled_from(['x', 'y', 'new'])),
             'op': draw(st.sampled_from(['assign', 'assign', 'delete'])),
             'ignore_missing': draw(st.booleans()),
             'api': draw(st.sampled_from(['func', 'spec']))}
@@ -394,7 +595,8 @@ def check_mutate(recipe, ctx):
     nwild = sum(1 for s in segs if s in ('*', '**'))
     # reference on its own copy
     rb = build_graph(recipe['tree'])
-    entries = flatten(refstar(rb.obj, segs), nwild)
+    m = Model()
+    entries = flatten(refstar(rb.obj, segs, m), nwild)
     exp_err = None
     rb.log.reset()
     ign = bool(recipe.get('ignore_missing')) and op == 'delete'
@@ -438,6 +640,7 @@ def check_mutate(recipe, ctx):
         ctx.label('list-entries-index-final')
     ctx.label('op-' + op, 'wild-%d' % nwild, 'entries-%d' % min(len(entries), 3),
               'exp-err' if exp_err is not None else 'exp-ok')
+    ctx.label(*enum_labels(m))
     ctx.nontrivial(nwild >= 2 or len(entries) >= 2)
     where = '%s %r on %r' % (op, path, gb.obj)
     gb.log.reset()
@@ -465,9 +668,9 @@ def check_mutate(recipe, ctx):
             raise Mismatch('wrong-return', '%s: must return the target' % where)
     else:
         if got_err is None:
-            raise Mismatch('missing-error', '%s: entry fails with %r, glom raised nothing' % (where, exp_err))
+            raise Mismatch('missing-error' + blame(m), '%s: entry fails with %r, glom raised nothing' % (where, exp_err))
     if got_log != exp_log:
-        raise Mismatch('wrong-operations', '%s: expected operations %r, observed %r' % (where, exp_log, got_log))
+        raise Mismatch('wrong-operations' + blame(m), '%s: expected operations %r, observed %r' % (where, exp_log, got_log))
     if tg.structure(gb.obj) != tg.structure(rb.obj):
         raise Mismatch('wrong-effect', '%s: expected %r, got %r' % (where, rb.obj, gb.obj))
     ctx.outcome([op, path, len(entries)])
@@ -524,10 +727,12 @@ def check_lazychildren(recipe, ctx):
 
 SUBS = [
     Sub('lazychildren', check_lazychildren, enum=enum_lazychildren),
-    Sub('read', check_read, gen=gen_read, quick=5000, thorough=15000,
-        floors={'shared-or-cyclic': 0.2, 'starstar': 0.12, 'wild-2': 0.06, 'exp-ok': 0.5}),
-    Sub('mutate', check_mutate, gen=gen_mutate, quick=2500, thorough=8000,
-        floors={'wild-2': 0.06, 'wild-3': 0.1, 'exp-ok': 0.3, 'list-entries-index-final': 0.08}),
+    Sub('read', check_read, gen=gen_read_ext, quick=5000, thorough=15000,
+        floors={'shared-or-cyclic': 0.2, 'starstar': 0.12, 'wild-2': 0.06, 'exp-ok': 0.5,
+                'enum-lru': 0.045, 'enum-seqsub-bare': 0.022, 'enum-seqsub-attrs': 0.03, 'enum-namedtuple-sub': 0.014}),
+    Sub('mutate', check_mutate, gen=gen_mutate_ext, quick=2500, thorough=8000,
+        floors={'wild-2': 0.06, 'wild-3': 0.1, 'exp-ok': 0.3, 'list-entries-index-final': 0.08,
+                'enum-lru': 0.06, 'enum-seqsub-bare': 0.055, 'enum-seqsub-attrs': 0.03}),
     fuzzrun.fuzz_sub('fuzz-path-text', 'c01-path-text', runs=20000, campaigns=4,
                      corpus=os.path.join(boot.VERIF, 'fuzz', 'corpus', 'c01-path-text'), replay_sub='read'),
 ]
